@@ -740,16 +740,33 @@ def cases(d):
     return list(deviations(MENU, d))
 
 
-def syntax_check(layouts, scratch, chunk=40):
+def syntax_check(layouts, scratch, chunk=20):
     """gfortran -fsyntax-only on every layout (conformance of the generator).
-    Returns list of (key, stderr) for rejected files."""
-    from vf.gf import Build
+    Returns list of (key, stderr) for rejected files.  Every gfortran invocation writes its module files into a
+    directory of its own (-J), so that a compiler left behind by a timeout can never race with a later one."""
+    from vf.gf import Build, GFORTRAN, FFLAGS
     bad = []
     with Build(base=scratch, prefix='lay_') as b:
-        b.write('deps.f90', DEPS)
-        ok, err = b.fsyntax(['deps.f90'])
-        if not ok:
+        b.write('deps/deps.f90', DEPS)
+        rc, _, err = b.run([GFORTRAN, *FFLAGS, '-fsyntax-only', '-J', 'deps', 'deps/deps.f90'], timeout=600)
+        if rc != 0:
             return [('DEPS', err)]
+        counter = [0]
+
+        def compile_(names):
+            counter[0] += 1
+            d = f'm{counter[0]}'
+            (b.dir / d).mkdir()
+            for attempt in (1, 2):
+                rc, _, err = b.run([GFORTRAN, *FFLAGS, '-std=f2008', '-fsyntax-only', '-Werror=line-truncation',
+                                    '-I', 'deps', '-J', d, *names], timeout=300 * attempt)
+                if rc != -9:
+                    break
+                counter[0] += 1
+                d = f'm{counter[0]}'
+                (b.dir / d).mkdir()
+            return rc == 0, err
+
         for c0 in range(0, len(layouts), chunk):
             group = layouts[c0:c0 + chunk]
             names = []
@@ -757,11 +774,11 @@ def syntax_check(layouts, scratch, chunk=40):
                 n = f'f{c0 + i}.f90'
                 b.write(n, lay.text)
                 names.append(n)
-            ok, err = b.fsyntax(names, flags=['-std=f2008', '-Wall', '-Werror=line-truncation'])
+            ok, err = compile_(names)
             if ok:
                 continue
             for n, lay in zip(names, group):
-                ok1, err1 = b.fsyntax([n], flags=['-std=f2008'])
+                ok1, err1 = compile_([n])
                 if not ok1:
                     bad.append((lay.key, err1[-800:]))
     return bad
